@@ -14,7 +14,13 @@ var commonAssumptions = []string{
 	"all claims are bounded: see coverage.bounds; nothing outside the bounds is claimed",
 }
 
-func J(pkg, h string, params ...int) Job { return Job{Pkg: pkg, Harness: h, Params: params} }
+func J(pkg, h string, params ...int) Job {
+	j := Job{Pkg: pkg, Harness: h, Params: params}
+	if pkg == encPkg {
+		j.MaxSteps = 500_000 // codec paths need a few thousand instructions; this is the unwinding bound
+	}
+	return j
+}
 
 // population masks: patterns over the first 30 leaf slots
 func patternMasks(quick bool) []int {
@@ -125,6 +131,14 @@ func checkSpecs() map[string]*CheckSpec {
 				jobs = append(jobs, J(encPkg, "H_C01_ballast", n, min(n, 3)))
 			}
 			jobs = append(jobs, J(encPkg, "H_C01_lowsum", 0), J(encPkg, "H_C01_lowsum", 1))
+			all := 1<<30 - 1
+			for _, sh := range [][]int{{1, 7, 0, 0, 0}, {2, 1023, 0, 0, 0}, {3, 15, 0, 0, 0}, {4, all, 2, 0, 0}, {5, all, 2, 1, 0}, {8, all, 1, 0, 0}, {9, 15, 0, 0, 0}, {10, 3, 0, 0, 0}} {
+				for change := 0; change <= 2; change++ {
+					for _, ls := range []int{1, 3} {
+						jobs = append(jobs, J(encPkg, "H_C01_reuse", sh[0], sh[1], sh[2], sh[3], sh[4], ls, 0, change))
+					}
+				}
+			}
 			return jobs
 		},
 		Explanation: "Bounded symbolic execution of the real SSA of fix.(*Message).ToBytes and everything it calls, over a catalogue of 14 template shapes (nesting of fields, components, repeating groups up to depth 3, empty/non-empty header, body, trailer), every population mask listed in rule, three population routes, with all value bytes symbolic. The assertion compares the output with an independent oracle written in the harness (prefix/suffix layout, decimal of the measured body length, mod-256 byte sum as three digits); z3 decides it for all values at once.",
@@ -318,10 +332,243 @@ func advJobs(h string, tier string, withStrict bool) []Job {
 					if withStrict {
 						p = append(p, (mk+l)%2)
 					}
-					jobs = append(jobs, Job{Pkg: encPkg, Harness: h, Params: p})
+					jobs = append(jobs, J(encPkg, h, p...))
 				}
 			}
 		}
 	}
 	return jobs
+}
+
+func init() {
+	extraSpecs = append(extraSpecs, func(m map[string]*CheckSpec) {
+		sessAssume := append(append([]string{}, commonAssumptions...),
+			"step fixture: the session is built by the real constructors (NewAcceptorSession/NewInitiatorSession with the generated tests/fix44 builders, memory store), Run() is executed, and every inbound message is dispatched by DefaultHandler.serve - the call DefaultHandler.Run makes per message; goroutines started during a step are recorded, not run (their bodies are the subject of C08/C09)",
+			"sync.Mutex/RWMutex/Once, context, atomic are modelled with their sequential semantics; time.Now is a non-decreasing stub; time.AfterFunc is recorded and fired by the harness",
+			"history quantifiers are discharged by induction over single steps from every pre-state class listed in the bounds; the composition is argued in DESIGN.md, not by the solver")
+		m["C14"] = &CheckSpec{
+			ID: "C14",
+			Jobs: func(tier string) []Job {
+				var jobs []Job
+				maxLen := 6
+				if tier != "quick" {
+					maxLen = 12
+				}
+				for role := 0; role <= 1; role++ {
+					for l := 1; l <= maxLen; l++ {
+						for pre := 0; pre <= 1; pre++ {
+							for sc := 1; sc <= 2; sc++ {
+								jobs = append(jobs, J(sessPkg, "H_C14_echo", role, l, pre, sc))
+							}
+						}
+					}
+				}
+				return jobs
+			},
+			Explanation:  "Symbolic step: a logged-on session (both roles; also from the state 'waiting for the answer to its own TestRequest') receives a TestRequest whose TestReqID bytes are symbolic (any byte but SOH, so '=', spaces, digits, '112=' are inside the domain), followed by a second one. Asserted for all IDs: exactly one message is transmitted per request, it is a Heartbeat, its TestReqID is byte-identical, it is in the outbound queue at the end of the step (before the next inbound message is dispatched).",
+			Rule:         "case = (role, ID length, pre-state, sequence-number digit count) x path",
+			Bounds:       map[string]string{"quick": "ID length 1..6, two consecutive requests", "thorough": "ID length 1..12"},
+			Assumptions:  sessAssume,
+			Outside:      "IDs longer than the bound; interleaving with the timer goroutines (C05/C20)",
+			Differential: 6,
+		}
+		m["C07"] = &CheckSpec{
+			ID: "C07",
+			Jobs: func(tier string) []Job {
+				var jobs []Job
+				for role := 0; role <= 1; role++ {
+					for kind := 0; kind < 8; kind++ {
+						for dmg := 0; dmg < 6; dmg++ {
+							for fill := 0; fill <= 1; fill++ {
+								if kind == 0 && dmg == 0 {
+									if role == 0 {
+										for v := 0; v <= 3; v++ {
+											jobs = append(jobs, J(sessPkg, "H_C07_quiet", role, kind, dmg, fill, 1, v, 0, 0, 0, 0))
+										}
+									}
+									continue
+								}
+								for hbv := 0; hbv <= 1; hbv++ {
+									if hbv == 1 && kind != 2 {
+										continue
+									}
+									jobs = append(jobs, J(sessPkg, "H_C07_quiet", role, kind, dmg, fill, 1+(kind+dmg)%2, 0, 0, 0, 0, hbv))
+								}
+							}
+						}
+					}
+				}
+				return jobs
+			},
+			Explanation:  "Inductive step from every not-logged-on pre-state reachable without a successful logon (acceptor waiting for a Logon, initiator waiting for the answer), with an empty message store and with a store filled by another, logged-on session. Inbound: every message kind (Logon made unacceptable four ways, Logout, Heartbeat, TestRequest, ResendRequest with a symbolic range, Reject, an application type, a symbolic unknown type), undamaged or damaged five ways, contents symbolic. Asserted: every transmitted message has MsgType A, 5 or 3; the session is still not logged on, in the same state class; no goroutine (timer) was started.",
+			Rule:         "case = (role, message kind, damage kind, store filled?, logon-refusal variant) x path",
+			Bounds:       map[string]string{"quick": "one step (induction), ResendRequest range 0..9 x 0..9, store holding 3 messages of another session", "thorough": "same"},
+			Assumptions:  sessAssume,
+			Outside:      "message stores other than the bundled in-memory one",
+			Differential: 6,
+		}
+		m["C16"] = &CheckSpec{
+			ID: "C16",
+			Jobs: func(tier string) []Job {
+				var jobs []Job
+				for role := 0; role <= 1; role++ {
+					for pre := 0; pre <= 1; pre++ {
+						for kind := 0; kind <= 4; kind++ {
+							for dmg := 0; dmg < 6; dmg++ {
+								for extra := 0; extra <= 1; extra++ {
+									if extra == 1 && dmg != 0 {
+										continue
+									}
+									jobs = append(jobs, J(sessPkg, "H_C16_reject", role, pre, kind, dmg, 1+(kind+dmg)%2, extra, 0, 0, 0, kind%2))
+								}
+							}
+						}
+					}
+				}
+				return jobs
+			},
+			Explanation:  "Two-step symbolic harness: an administrative message (Logon, Logout, Heartbeat, TestRequest, ResendRequest) that is damaged (wrong checksum byte, wrong BodyLength digit, non-numeric numeric field, non-numeric or missing MsgSeqNum) or not permitted in the state, then a valid message. Asserted after step 1: exactly one message transmitted, a Reject, RefSeqNum = the offending MsgSeqNum (or RefTagID = 34 when that number is unusable); logged-on status unchanged; neither context cancelled; no session event. After step 2: the valid message is processed normally (TestRequest echoed / Logon accepted).",
+			Rule:         "case = (role, pre-state, message kind, damage kind, also-missing-seqnum) x path",
+			Bounds:       map[string]string{"quick": "pre-states: waiting for logon, waiting for logon answer, logged on; one invalid + one valid message", "thorough": "same"},
+			Assumptions:  sessAssume,
+			Outside:      "the state 'waiting for TestRequest answer' (any inbound message legitimately changes it, see C09)",
+			Differential: 6,
+		}
+		m["C06"] = &CheckSpec{
+			ID: "C06",
+			Jobs: func(tier string) []Job {
+				var jobs []Job
+				lims := [][2]int{{20, 60}, {30, 30}}
+				if tier != "quick" {
+					lims = append(lims, [2]int{10, 99}, [2]int{1, 20})
+				}
+				for _, l := range lims {
+					for as := 0; as <= 1; as++ {
+						for first := 0; first <= 5; first++ {
+							for creds := 0; creds <= 2; creds++ {
+								for am := 0; am <= 1; am++ {
+									if am == 1 && creds == 2 {
+										continue
+									}
+									if creds == 2 && first != 0 && tier == "quick" {
+										continue
+									}
+									jobs = append(jobs, J(sessPkg, "H_C06_acceptor", l[0], l[1], as, 0, 1+first%2, first, creds, am))
+								}
+							}
+							for dmg := 1; dmg < 6; dmg++ {
+								if first == 0 || first == 5 || first == 3 {
+									jobs = append(jobs, J(sessPkg, "H_C06_acceptor", l[0], l[1], as, dmg, 1, first, 0, 0))
+								}
+							}
+						}
+					}
+				}
+				for _, hb := range []int{1, 30, 3600} {
+					for _, dmg := range []int{0, 1, 2, 5} {
+						for between := -1; between < 8; between++ {
+							if between == 0 {
+								continue
+							}
+							jobs = append(jobs, J(sessPkg, "H_C06_initiator", hb, dmg, 1, between))
+						}
+					}
+				}
+				return jobs
+			},
+			Explanation:  "Symbolic step(s) of the Logon handler. Acceptor: a Logon with symbolic encryption method, heartbeat interval, credentials, reset flag and sequence number, undamaged or damaged, optionally preceded by a first Logon step (refused four ways, or accepted); the application callback approves symbolically or by username. Asserted: IsLogged' <=> (well-formed && method allowed && min<=hb<=max && approved); accepted: first answer is a Logon echoing 108 and 98, logon event once, only ResendRequests may follow; refused: exactly one Reject with RefSeqNum (and RefTagID 98/108 for a parameter refusal), no timers, no event; while logged on: one Reject, settings/timers/events untouched. Initiator: first transmission is the Logon with the configured 108/98/553/554 and MsgSeqNum 1; logged on only after an undamaged Logon comes back, not by any other message kind.",
+			Rule:         "case = (limits, allowed set, damage, first-step variant, credentials, approval mode) x path",
+			Bounds:       map[string]string{"quick": "heartbeat interval 10..99 vs limits {20..60, 30..30}; at most two Logon steps; method 1 byte; credentials 2 bytes", "thorough": "more limit pairs"},
+			Assumptions:  sessAssume,
+			Outside:      "histories are covered by induction over steps together with C07/C16 (no other step logs a session on)",
+			Differential: 6,
+		}
+		m["C10"] = &CheckSpec{
+			ID: "C10",
+			Jobs: func(tier string) []Job {
+				var jobs []Job
+				maxK := 3
+				if tier != "quick" {
+					maxK = 5
+				}
+				for role := 0; role <= 1; role++ {
+					for k := 0; k <= maxK; k++ {
+						for bc := 0; bc <= 1; bc++ {
+							for ec := 0; ec <= 1; ec++ {
+								for tw := 0; tw <= 1; tw++ {
+									if (bc == 1 || ec == 1 || k > 2) && tw == 1 {
+										continue
+									}
+									jobs = append(jobs, J(sessPkg, "H_C10_resend", role, k, bc, ec, tw))
+								}
+							}
+						}
+					}
+					for cc := 0; cc <= 1; cc++ {
+						for nc := 0; nc <= 1; nc++ {
+							jobs = append(jobs, J(sessPkg, "H_C10_gap", role, cc, nc))
+						}
+					}
+				}
+				return jobs
+			},
+			Explanation:  "Symbolic harness: a logged-on session sends k messages of mixed types with symbolic contents; their first transmissions are recorded from the outbound queue; then one or two ResendRequests with symbolic BeginSeqNo/EndSeqNo (0..99, so inside, e=0, b=e, beyond last, b>e, b=0, repeated) are dispatched. Asserted: for 1<=b<=e<=last (e=0 meaning last) exactly the recorded messages b..e, ascending, byte-identical; otherwise nothing outside the range and nothing new. Gap detection: stored last-received number c and Logon MsgSeqNum n symbolic: n>c+1 => exactly one ResendRequest with BeginSeqNo=c+1 covering the gap; otherwise none.",
+			Rule:         "case = (role, k, range classes, one or two requests) x path (ranges are concretised by forking, so every (b,e) is its own path)",
+			Bounds:       map[string]string{"quick": "k<=3 messages after the logon exchange, b,e in 0..99, <=2 requests", "thorough": "k<=5"},
+			Assumptions:  sessAssume,
+			Outside:      "stores other than the bundled one; PossDupFlag semantics (not part of the property)",
+			Differential: 4,
+		}
+		m["C15"] = &CheckSpec{
+			ID: "C15",
+			Jobs: func(tier string) []Job {
+				var jobs []Job
+				for role := 0; role <= 1; role++ {
+					for sc := 0; sc <= 3; sc++ {
+						jobs = append(jobs, J(sessPkg, "H_C15_logout", role, sc))
+					}
+				}
+				return jobs
+			},
+			Explanation:  "Symbolic steps of the Logout handler, Session.Logout and Session.Stop with the close timeout a symbolic duration (0 included): (0) peer Logout while logged on -> exactly one Logout, not logged on, a repeated Logout is not acknowledged again; (1) local Logout then peer Logout -> nothing transmitted, logout event once; (2) Stop: one Logout, exactly one deadline timer armed with exactly CloseTimeout, context not yet cancelled; peer's Logout -> context cancelled without the timer firing; (3) Stop, no answer, the harness fires the deadline closure -> context cancelled.",
+			Rule:         "case = (role, scenario) x path",
+			Bounds:       map[string]string{"quick": "4 scenarios x 2 roles; CloseTimeout symbolic in [0, 2^40] ns", "thorough": "same"},
+			Assumptions:  append(append([]string{}, sessAssume...), "'at the latest after CloseTimeout' is the contract of time.AfterFunc (recorded stub); scenarios 2/3 are replayed in the engine because the native build cannot fire the timer on demand"),
+			Outside:      "real-time behaviour of time.AfterFunc",
+			Replay:       "engine",
+		}
+		m["C19"] = &CheckSpec{
+			ID: "C19",
+			Jobs: func(tier string) []Job {
+				var jobs []Job
+				for nAll := 0; nAll <= 3; nAll++ {
+					for nType := 0; nType <= 2; nType++ {
+						for _, order := range []int{0, 1, 2, 5, 10, 21} {
+							for failAt := 0; failAt <= 2; failAt++ {
+								for kind := 0; kind <= 1; kind++ {
+									if (order > 2 && nAll+nType < 3) || (kind == 1 && failAt == 2) {
+										continue
+									}
+									jobs = append(jobs, J(sessPkg, "H_C19_send", nAll, nType, order, failAt, kind, 1+failAt%2))
+								}
+							}
+							for kind := 0; kind < 8; kind += 3 {
+								jobs = append(jobs, J(sessPkg, "H_C19_inbound", nAll, nType, order, kind))
+							}
+						}
+					}
+				}
+				for n := 0; n <= 4; n++ {
+					jobs = append(jobs, J(sessPkg, "H_C19_events", n))
+				}
+				return jobs
+			},
+			Explanation:  "Symbolic harness over Session.Send / DefaultHandler.send / serve / EventHandlerPool.Trigger: up to 3 all-types and 2 type-specific outgoing handlers registered in interleaved orders, each refusing iff its own symbolic boolean; an instrumented MessageStorage whose k-th Save fails. Asserted per Send: the call log is store hook, all-types handlers in registration order, type handlers in registration order, stopping at the first refusal or store failure; handlers of another type are never called; on veto nothing is transmitted and Send returns an error; otherwise exactly one message is transmitted, it was saved under its own MsgSeqNum, and the store and every handler saw exactly the transmitted bytes. Inbound: all-types handlers then own-type handlers, each pool in registration order with early exit. Events: registration order with early exit.",
+			Rule:         "case = (numbers of handlers, registration interleaving, failing save index, message type, number of sends) x path (one path per accept/refuse pattern)",
+			Bounds:       map[string]string{"quick": "<= 3 all-types + 2 type handlers, <= 2 sends, save failure at index 1 or 2", "thorough": "same"},
+			Assumptions:  sessAssume,
+			Outside:      "handler removal (HandlerPool.Remove)",
+			Differential: 4,
+		}
+	})
 }
